@@ -72,4 +72,92 @@ theorem namedAttr_answer_iff (s : Schema) (an : String) (fuel : Nat) (en : Strin
     simp only [Bool.false_eq_true, false_iff]
     exact namedAttr_false_complete s an fuel en h
 
+/-! ### … and it does answer unless the supertypes are cyclic -/
+
+/-- `l` is a path in `g` that starts with an edge out of `a` -/
+def IsPath (g : String → List String) : String → List String → Prop
+  | _, [] => True
+  | a, b :: rest => b ∈ g a ∧ IsPath g b rest
+
+theorem isPath_reach {g : String → List String} : ∀ (l : List String) (a x : String), IsPath g a l → x ∈ l → Reach g a x
+  | [], _, _, _, h => by simp at h
+  | b :: rest, a, x, hp, hx => by
+    obtain ⟨hb, hr⟩ := hp
+    rcases List.mem_cons.mp hx with rfl | hx
+    · exact .step hb
+    · exact .trans hb (isPath_reach rest b x hr hx)
+
+theorem isPath_suffix {g : String → List String} : ∀ (l1 : List String) (a y : String) (l2 : List String),
+    IsPath g a (l1 ++ y :: l2) → IsPath g y l2
+  | [], _, _, _, h => h.2
+  | _ :: l1, _, y, l2, h => isPath_suffix l1 _ y l2 h.2
+
+theorem exists_dup_of_not_nodup : ∀ (l : List String), ¬ l.Nodup → ∃ l1 y l2, l = l1 ++ y :: l2 ∧ y ∈ l2
+  | [], h => absurd List.nodup_nil h
+  | x :: xs, h => by
+    by_cases hx : x ∈ xs
+    · exact ⟨[], x, xs, rfl, hx⟩
+    · have : ¬ xs.Nodup := fun hn => h (List.nodup_cons.mpr ⟨hx, hn⟩)
+      obtain ⟨l1, y, l2, he, hy⟩ := exists_dup_of_not_nodup xs this
+      exact ⟨x :: l1, y, l2, by rw [he]; rfl, hy⟩
+
+theorem namedAttr_foldl_none (s : Schema) (an : String) (fuel : Nat) : ∀ (l : List String) (acc : Option Bool),
+    l.foldl (fun acc sup => match acc with
+      | none => none
+      | some true => some true
+      | some false => namedAttr s an fuel sup) acc = none →
+    acc = none ∨ ∃ sup ∈ l, namedAttr s an fuel sup = none
+  | [], acc, h => Or.inl (by simpa using h)
+  | x :: xs, acc, h => by
+    simp only [List.foldl_cons] at h
+    rcases namedAttr_foldl_none s an fuel xs _ h with h1 | ⟨sup, hs, hv⟩
+    · cases acc with
+      | none => exact Or.inl rfl
+      | some b =>
+        cases b with
+        | true => simp at h1
+        | false => exact Or.inr ⟨x, List.mem_cons_self .., by simpa using h1⟩
+    · exact Or.inr ⟨sup, List.mem_cons_of_mem _ hs, hv⟩
+
+/-- running out of fuel means a chain of `fuel` supertype edges below the entity -/
+theorem namedAttr_none_path (s : Schema) (an : String) : ∀ (fuel : Nat) (en : String), namedAttr s an fuel en = none →
+    ∃ l, l.length = fuel ∧ IsPath (superGraph s) en l
+  | 0, _, _ => ⟨[], rfl, trivial⟩
+  | fuel + 1, en, h => by
+    simp only [namedAttr] at h
+    cases hf : findEntity s en with
+    | none => rw [hf] at h; simp at h
+    | some e =>
+      rw [hf] at h
+      simp only at h
+      by_cases hown : e.attrs.any (fun a => a.name = an) = true
+      · simp [hown] at h
+      · simp only [hown, Bool.false_eq_true, if_false] at h
+        rcases namedAttr_foldl_none s an fuel _ _ h with h1 | ⟨sup, hs, hv⟩
+        · cases h1
+        · obtain ⟨l, hl, hp⟩ := namedAttr_none_path s an fuel sup hv
+          exact ⟨sup :: l, by simp [hl], by simpa [IsPath, superGraph, hf] using ⟨hs, hp⟩⟩
+
+theorem isPath_entities (s : Schema) : ∀ (l : List String) (a : String), IsPath (superGraph s) a l →
+    ∀ x ∈ l, x ∈ s.entities.map (·.name)
+  | [], _, _, x, hx => by simp at hx
+  | b :: rest, a, hp, x, hx => by
+    rcases List.mem_cons.mp hx with rfl | hx
+    · exact superGraph_entities s a x hp.1
+    · exact isPath_entities s rest b hp.2 x hx
+
+/-- **`ENTITYget_named_attribute` answers unless the supertypes below the entity are cyclic**: with more fuel than there are entities
+    (the passes give declarations + 1), `none` implies an entity that is reachable from `en` and is its own ancestor -/
+theorem namedAttr_none_cycle (s : Schema) (an : String) (fuel : Nat) (en : String) (hf : s.entities.length < fuel)
+    (h : namedAttr s an fuel en = none) : ∃ y, Reach (superGraph s) en y ∧ Reach (superGraph s) y y := by
+  obtain ⟨l, hl, hp⟩ := namedAttr_none_path s an fuel en h
+  have hnd : ¬ l.Nodup := by
+    intro hn
+    have := nodup_length_le l (s.entities.map (·.name)) hn (isPath_entities s l en hp)
+    simp only [List.length_map] at this
+    omega
+  obtain ⟨l1, y, l2, he, hy⟩ := exists_dup_of_not_nodup l hnd
+  subst he
+  exact ⟨y, isPath_reach _ en y hp (by simp), isPath_reach l2 y y (isPath_suffix l1 en y l2 hp) hy⟩
+
 end StepModel.Express.Resolve
